@@ -894,6 +894,8 @@ def unique_rules(model, R):
         env = Env(func)
         comps = [n for n in walk(func.body) if isinstance(n, ast.ListComp)]
         if len(comps) != 1:
+            if not comps and _unique_loop_form(R, func, name):
+                continue
             raise Unrecognised(f'Unique.{name}: expected one list comprehension', func=func, node=func.node)
         lc = comps[0]
         g = lc.generators[0]
@@ -951,6 +953,76 @@ def unique_rules(model, R):
         ok = (len(rets) == 1 and isinstance(rets[0].value, ast.Call) and name_is(rets[0].value.func, 'iter')
               and chain(rets[0].value.args[0]) == ['self', '_items'])
         R.check(ok, 'UNIQUE-INVARIANT', func, func.node, '__iter__ is the ordered list', 'iter(self._items)')
+
+
+def _unique_loop_form(R, func, name):
+    """Explicit-loop spelling of the dedup: ``for x in it: if x not in seen [..]: seen.add(x); items.append(x)`` (also with guard-``continue``).
+    Returns True when the shape was recognised (and the obligations recorded)."""
+    from ..astutil import context_of
+    loops = [s_ for s_ in func.body if isinstance(s_, ast.For) and isinstance(s_.target, ast.Name)]
+    if len(loops) != 1:
+        return False
+    lp = loops[0]
+    x = lp.target.id
+    adds = [n for n in walk(lp.body) if isinstance(n, ast.Call) and isinstance(n.func, ast.Attribute) and n.func.attr == 'add'
+            and len(n.args) == 1 and name_is(n.args[0], x) and isinstance(n.func.value, ast.Name)]
+    apps = [n for n in walk(lp.body) if isinstance(n, ast.Call) and isinstance(n.func, ast.Attribute) and n.func.attr == 'append'
+            and len(n.args) == 1 and name_is(n.args[0], x) and isinstance(n.func.value, ast.Name)]
+    if len(adds) != 1 or len(apps) != 1:
+        return False
+    seen_name, items_name = adds[0].func.value.id, apps[0].func.value.id
+
+    def excluded(call):
+        """names of collections the element is known NOT to be in when the call runs"""
+        out = set()
+        for c in context_of(lp.body, call) or []:
+            if c[0] not in ('if', 'guard'):
+                return None
+            parts = [c[1]]
+            t, neg = strip_not(c[1])
+            pol = c[2] != neg
+            # (a in A or a in B) false  ==  a not in A and a not in B ; (a not in A and a not in B) true
+            if isinstance(t, ast.BoolOp):
+                if (isinstance(t.op, ast.Or) and not pol) or (isinstance(t.op, ast.And) and pol):
+                    parts = [(v, pol) for v in t.values]
+                else:
+                    return None
+            else:
+                parts = [(t, pol)]
+            for tt, pp in parts:
+                tt, n2 = strip_not(tt)
+                pp = pp != n2
+                if isinstance(tt, ast.Compare) and len(tt.ops) == 1 and name_is(tt.left, x) and isinstance(tt.ops[0], (ast.In, ast.NotIn)):
+                    notin = isinstance(tt.ops[0], ast.NotIn) == pp
+                    if notin:
+                        out.add(src(tt.comparators[0]))
+                    else:
+                        return None
+                else:
+                    return None
+        return out
+    ea, ep = excluded(adds[0]), excluded(apps[0])
+    if ea is None or ep is None:
+        return False
+    # which set becomes _seen / which list becomes _items
+    if name == '__init__':
+        becomes_seen = any(isinstance(s_, ast.Assign) and any(chain(t_) == ['self', '_seen'] for t_ in s_.targets)
+                           and (any(name_is(t_, seen_name) for t_ in s_.targets) or name_is(s_.value, seen_name)) for s_ in stmts(func.body))
+        becomes_items = any(isinstance(s_, ast.Assign) and any(chain(t_) == ['self', '_items'] for t_ in s_.targets) and name_is(s_.value, items_name)
+                            for s_ in stmts(func.body))
+    else:
+        call = [n for n in walk(func.body) if isinstance(n, ast.Call) and chain(n.func) and chain(n.func)[-1] == '_fromargs' and len(n.args) == 2]
+        becomes_seen = bool(call) and name_is(call[0].args[0], seen_name)
+        becomes_items = bool(call) and name_is(call[0].args[1], items_name)
+    R.decided(becomes_seen and becomes_items and seen_name in ea and seen_name in ep and ea == ep, 'UNIQUE-INVARIANT', func, lp,
+              f'{name}: dedup records every kept item in the set that becomes _seen',
+              f'for x in ...: if x not in {seen_name}: {seen_name}.add(x); {items_name}.append(x)',
+              f'add under not-in {sorted(ea)}, append under not-in {sorted(ep)}; _seen<-{seen_name}: {becomes_seen}, _items<-{items_name}: {becomes_items}')
+    if name == 'rsub':
+        R.decided('self._seen' in ea or any(True for s_ in func.body if isinstance(s_, ast.Assign) and name_is(s_.targets[0], next(iter(ea - {seen_name}), ''))
+                                            and chain(s_.value) == ['self', '_seen']),
+                  'UNIQUE-INVARIANT', func, lp, 'rsub: items already present are dropped', 'x not in self._seen', str(sorted(ea)))
+    return True
 
 
 def _flatten_and(node):
